@@ -23,6 +23,7 @@ type Plan struct {
 	Wire       bool     `json:"wire"`
 	Leader     string   `json:"leader"`
 	Script     []int    `json:"leaderScript,omitempty"`
+	PrefixScript []int  `json:"prefixLeaderScript,omitempty"` // scripted leaders of views 1..len (any replica); later views use leaderScript
 	ViewDur    ViewDur  `json:"viewDuration"`
 	Batch      int      `json:"batch"`
 	Clients    int      `json:"clients"` // closed-loop clients using the real ClientIO (0 = none)
@@ -83,6 +84,7 @@ type Fault struct {
 	Peer   int     `json:"peer,omitempty"`
 	Groups [][]int `json:"groups,omitempty"`
 	ForMs  int     `json:"forMs,omitempty"`
+	DelayMs int    `json:"delayMs,omitempty"`
 }
 
 type Inject struct {
@@ -202,7 +204,7 @@ type profile struct {
 
 var allActs = []string{"equivocate", "badparent", "staleqc", "inflate", "dupsigner", "relabel", "subquorum",
 	"wrongblock", "genesisview", "futuretimeout", "badtimeoutsig", "dupvote", "multivote", "zerovote", "unknownvote",
-	"strayvote", "replay", "liefetch", "silent", "staleTC", "swapids", "nosig", "sameview", "aggreplay"}
+	"strayvote", "replay", "liefetch", "silent", "staleTC", "swapids", "nosig", "sameview", "aggreplay", "forgevote", "forgetc"}
 
 func profileFor(prop string) profile {
 	pr := profile{byz: 0.6, acts: allActs, faults: 6, leaders: []string{"round-robin", "round-robin", "round-robin", "fixed", "carousel", "reputation", "scripted"}}
@@ -230,7 +232,7 @@ func profileFor(prop string) profile {
 		pr.leaders = []string{"round-robin", "fixed", "scripted"}
 	case "C09":
 		pr.byz = 0.7
-		pr.acts = []string{"dupvote", "multivote", "multivote", "zerovote", "zerovote", "unknownvote", "strayvote", "replay", "equivocate", "futuretimeout"}
+		pr.acts = []string{"dupvote", "multivote", "multivote", "zerovote", "zerovote", "unknownvote", "strayvote", "replay", "equivocate", "futuretimeout", "forgevote", "forgevote", "forgevote"}
 		pr.leaders = []string{"round-robin", "fixed", "scripted"}
 	case "C16":
 		pr.byz = 0.3
@@ -352,7 +354,11 @@ func GenPlan(prop string, seed uint64) *Plan {
 		nf := g.intn(pr.faults + 1)
 		for i := 0; i < nf; i++ {
 			at := g.intn(healAt + 1)
-			switch g.weighted(40, 20, 15, 25) {
+			switch g.weighted(34, 18, 13, 20, 15) {
+			case 4:
+				// a slow replica: everything it sends is late by about a view timeout for a while
+				p.Faults = append(p.Faults, Fault{AtMs: at, Kind: "slownode", Node: g.rng(1, p.N), ForMs: g.rng(3, 15) * p.ViewDur.Ms,
+					DelayMs: p.ViewDur.Ms * g.rng(5, 15) / 10})
 			case 0:
 				p.Faults = append(p.Faults, Fault{AtMs: at, Kind: "partition", Groups: g.partition(p.N)},
 					Fault{AtMs: at + g.rng(1, 8)*p.ViewDur.Ms, Kind: "heal"})
@@ -369,10 +375,28 @@ func GenPlan(prop string, seed uint64) *Plan {
 			}
 		}
 	}
+	victim := 0
+	if pr.liveness && !faultFree && f > 0 && budget > 0 && g.p(0.35) {
+		// a degrading replica: slow for a while (its messages arrive about a view late), then it crashes.
+		// If the leader script lets it lead, it is the one that holds the newest certificates when it dies.
+		victim = g.pickHonest(p)
+		budget--
+		slowAt := g.intn(healAt/2 + 1)
+		p.Faults = append(p.Faults,
+			Fault{AtMs: slowAt, Kind: "slownode", Node: victim, ForMs: healAt, DelayMs: p.ViewDur.Ms * g.rng(10, 16) / 10},
+			Fault{AtMs: slowAt + (healAt-slowAt)*g.rng(30, 95)/100, Kind: "crash", Node: victim})
+	}
 	sortFaults(p.Faults)
 
 	if pr.liveness {
 		p.genLiveness(g, healAt, faultFree)
+		if victim != 0 && p.Leader == "scripted" && len(p.PrefixScript) > 0 {
+			for i := range p.PrefixScript {
+				if g.p(0.6) {
+					p.PrefixScript[i] = victim
+				}
+			}
+		}
 	}
 	if pr.inject > 0 {
 		ni := g.rng(1, pr.inject)
@@ -491,6 +515,16 @@ func (p *Plan) genLiveness(g *gen, healAt int, faultFree bool) {
 		p.Script = nil
 		for i := 0; i < g.rng(2, 9); i++ {
 			p.Script = append(p.Script, p.Sync[g.intn(len(p.Sync))])
+		}
+		if !faultFree && g.p(0.7) {
+			// the early views may be led by anyone, also by replicas that crash later; leaders come in runs,
+			// so that one replica collects the votes of several consecutive views
+			for len(p.PrefixScript) < g.rng(4, 30) {
+				l := g.rng(1, p.N)
+				for k := g.rng(1, 5); k > 0; k-- {
+					p.PrefixScript = append(p.PrefixScript, l)
+				}
+			}
 		}
 	}
 	// room for the suffix: enough views for resynchronisation and commits
